@@ -99,6 +99,10 @@ def describe(fa, S, op, depth=0):
         return "%s(%s,%s)" % (rv["op"].replace("WithOverflow", ""), describe(fa, S, rv["a"], depth + 1),
                               describe(fa, S, rv["b"], depth + 1)) + suffix
     if rv["k"] == "agg":
+        adt = str(rv.get("adt", ""))
+        if adt.startswith(("std::ops::Range", "core::ops::Range")) and depth <= 3:
+            # a range index is described by its bounds: `[n..]`, `[..n]`, `[a..b]`
+            return "%s(%s)" % (adt.rsplit("::", 1)[-1], ",".join(describe(fa, S, o, depth + 1) for o in rv["ops"])) + suffix
         return "agg" + suffix
     return "_" + suffix
 
@@ -1146,6 +1150,20 @@ def run(ctx):
     for k_ in sorted(entries):
         if k_ not in live_keys and not k_.startswith(("NARROW|", "TOK|", "TRAIN|")):
             stale_by.setdefault(coarse(k_), []).append(k_)
+    # A statement that a restructuring duplicated (a shared tail moved into both branches) shows
+    # up as one more site with the same function, kind and operand description, one ordinal
+    # higher. When the description names its operands (no anonymous variable in it) the entry of
+    # ordinal 0 speaks about exactly this expression and carries over.
+    def sibling(key):
+        head, _ord = key.rsplit("|", 1)
+        desc_ = "|".join(head.split("|")[2:])
+        if _ord == "0" or "var:" in desc_ or re.search(r"\bagg\b", desc_):
+            return None
+        return entries.get(head + "|0")
+    for s in sites:
+        if s.key not in entries and sibling(s.key) is not None:
+            entries[s.key] = sibling(s.key)
+            ctx.listed("PANIC", "duplicated sites covered by the entry of their first occurrence", s.key)
     need_by = {}
     undis = {}
     for s in sites:
